@@ -213,9 +213,25 @@ def register_harness(res):
         sp_m, rp_m = os.path.join(wd, "sys-%s.ndjson" % mode), os.path.join(wd, "recs-%s.ndjson" % mode)
         write_ndjson(sp_m, [systems[i] for i in idx])
         run_vh([mode, "--in", sp_m, "--out", rp_m], timeout=3000)
-        for x in read_ndjson(rp_m):
-            x["sys"] = idx[x["sys"] - 1] + 1
-            recs.append(x)
+        # records are self-contained states in the recorder's breadth-first order, each carrying its whole message log.
+        # On a harness whose clients never stop the logs (and the file) grow without bound and the judge would die of
+        # size (a tool error instead of a verdict): judge the first 40 MB of each mode, which is everything on a
+        # conforming tree (a few MB) and contains the early states, where a protocol violation first shows, otherwise
+        budget, kept, dropped = 40_000_000, 0, 0
+        with open(rp_m) as fh:
+            for line in fh:
+                if not line.strip():
+                    continue
+                if budget - len(line) < 0 and '"summary"' not in line[:200]:
+                    dropped += 1
+                    continue
+                budget -= len(line)
+                x = json.loads(line)
+                x["sys"] = idx[x["sys"] - 1] + 1
+                recs.append(x)
+                kept += 1
+        if dropped:
+            res.notes.append("%s: %d oversized state records were not judged (%d were)" % (mode, dropped, kept))
     write_ndjson(rp, recs)
     for x in recs:
         if x.get("summary") and x.get("panicked"):
